@@ -426,8 +426,10 @@ class Scores:
         # Example: We want threshold at 70% TPR. If easy_pos_ratio=60%, then we want
         # the threshold at 25% TPR on the remaining 40% hard positives, since
         # 70% - 60% = 10% is 25% of the remaining 40%
-        tpr = np.maximum(np.asarray(tpr) - self.easy_pos_ratio, 0.0)
-        tpr = np.minimum(tpr / self.hard_pos_ratio, 1.0)
+        # We use counts instead of the easy/hard ratios, so that tpr=1.0 is mapped to
+        # exactly 1.0 without rounding errors.
+        tpr = np.maximum(np.asarray(tpr) * self.nb_all_pos - self.nb_easy_pos, 0.0)
+        tpr = np.minimum(tpr / self.nb_hard_pos, 1.0)
         return self._threshold_at_ratio(self.pos, tpr, False, BinaryLabel.pos, method)
 
     def threshold_at_fnr(self, fnr, *, method: str = "linear"):
@@ -462,8 +464,8 @@ class Scores:
         if len(self.neg) == 0:
             raise ValueError("Cannot set threshold at TNR with no negative values.")
         # See explanation in threshold_at_tpr()
-        tnr = np.maximum(np.asarray(tnr) - self.easy_neg_ratio, 0.0)
-        tnr = np.minimum(tnr / self.hard_neg_ratio, 1.0)
+        tnr = np.maximum(np.asarray(tnr) * self.nb_all_neg - self.nb_easy_neg, 0.0)
+        tnr = np.minimum(tnr / self.nb_hard_neg, 1.0)
         return self._threshold_at_ratio(self.neg, tnr, True, BinaryLabel.neg, method)
 
     def threshold_at_fpr(self, fpr, *, method: str = "linear"):
